@@ -27,7 +27,9 @@ CAMERA_MODELS = {'SIMPLE_PINHOLE': 5, 'PINHOLE': 6, 'SIMPLE_RADIAL': 6, 'RADIAL'
                  'FOV': 7, 'OPENCV_FISHEYE': 10}
 
 DTYPES = ['float32', 'float64', 'uint8', 'int32', 'float16', 'int8', 'uint16', 'int64']
-ID_TAILS = ['', ' x', 'é', '-0', '_b.c', ' with space']
+# the last five hold a character that str.splitlines() treats as a line boundary but a text file does not (form feed, vertical
+# tab, file separator, NEL, LINE SEPARATOR), INSIDE the identifier: a legal, comma-free, newline-free, trimmed identifier
+ID_TAILS = ['', ' x', 'é', '-0', '_b.c', ' with space', '\x0cff', '\x0bvt', '\x1cfs', '\x85nel', '\u2028ls']
 
 
 def H(x):
@@ -304,6 +306,16 @@ def gen_dataset(rng, opts=None):
                     if e not in seen:
                         seen.add(e)
                         obs.append(list(e))
+                if len(kp_types) > 1 and rng.random() < 0.6:
+                    # one 3-D point seen through EVERY keypoints type (and twice in one image): its file lines are
+                    # consecutive, one per type, and a reader must merge them
+                    pid = rng.randrange(n)
+                    for kt in kp_types:
+                        for img in d['keypoints'][kt]['images'][:2]:
+                            for e in ((pid, kt, img, rng.randrange(50)), (pid, kt, img, 50 + rng.randrange(50))):
+                                if e not in seen:
+                                    seen.add(e)
+                                    obs.append(list(e))
                 d['observations'] = obs
     return d
 
